@@ -348,17 +348,34 @@ def r6_pending_placement_dropped(ctx: Context) -> None:
     tests = [n for n in g.nodes if n.kind == "test" and isinstance(n.ast, ast.Compare)
              and len(n.ast.ops) == 1 and isinstance(n.ast.ops[0], ast.In)
              and (dotted(n.ast.comparators[0]) or "").endswith("_future_placement_events")]
-    if not tests:
+    lookups = [(t, "T", norm(t.ast.left), None) for t in tests]
+    # the same lookup spelt `ev = cache.get(key)` / `if ev is not None:` (the cache only ever holds Event objects)
+    for asg in [x for x in ast.walk(h) if isinstance(x, ast.Assign) and len(x.targets) == 1 and isinstance(x.targets[0], ast.Name)
+                and isinstance(x.value, ast.Call) and isinstance(x.value.func, ast.Attribute) and x.value.func.attr == "get"
+                and (dotted(x.value.func.value) or "").endswith("_future_placement_events") and len(x.value.args) == 1]:
+        v = asg.targets[0].id
+        for n in g.nodes:
+            if n.kind != "test":
+                continue
+            tt = n.ast
+            if isinstance(tt, ast.Compare) and len(tt.ops) == 1 and isinstance(tt.left, ast.Name) and tt.left.id == v \
+                    and isinstance(tt.comparators[0], ast.Constant) and tt.comparators[0].value is None:
+                if isinstance(tt.ops[0], ast.IsNot):
+                    lookups.append((n, "T", norm(asg.value.args[0]), v))
+                elif isinstance(tt.ops[0], ast.Is):
+                    lookups.append((n, "F", norm(asg.value.args[0]), v))
+            elif isinstance(tt, ast.Name) and tt.id == v:
+                lookups.append((n, "T", norm(asg.value.args[0]), v))
+    if not lookups:
         ctx.violation("C06.R6", f"{qualname(h)}|membership test on the placement cache", loc(h),
                       "the TASK_CANCEL handler no longer looks up the cached placement event")
-    for t in tests:
-        keyexpr = norm(t.ast.left)
+    for t, pol, keyexpr, bound in lookups:
         removes = [c for c in calls_in(h, "remove_event")]
         dels = [d for d in ast.walk(h) if isinstance(d, ast.Delete)
                 and any(isinstance(x, ast.Subscript) and (dotted(x.value) or "").endswith("_future_placement_events")
                         and norm(x.slice) == keyexpr for x in d.targets)]
-        r_ok = any(g.edge_dominates(t, "T", g.node_of(c)) for c in removes)
-        d_ok = any(g.edge_dominates(t, "T", g.node_of(d)) for d in dels)
+        r_ok = any(g.edge_dominates(t, pol, g.node_of(c)) for c in removes)
+        d_ok = any(g.edge_dominates(t, pol, g.node_of(d)) for d in dels)
         # the test must be on every path of the handler
         every = not g.reachable_from_entry(g.ret, {t.id})
         ctx.check(r_ok, "C06.R6", f"{qualname(h)}|remove_event under `{norm(t.ast)}`", loc(t.ast),
@@ -371,7 +388,9 @@ def r6_pending_placement_dropped(ctx: Context) -> None:
         for c in removes:
             a = c.args[0] if c.args else None
             okv = False
-            if isinstance(a, ast.Name):
+            if isinstance(a, ast.Name) and bound is not None and a.id == bound:
+                okv = True
+            elif isinstance(a, ast.Name):
                 for asg in [x for x in ast.walk(h) if isinstance(x, ast.Assign)]:
                     if any(isinstance(tg, ast.Name) and tg.id == a.id for tg in asg.targets) \
                             and isinstance(asg.value, ast.Subscript) \
